@@ -23,6 +23,7 @@ func TestC13(t *testing.T) {
 func c13prop(r *simkit.Run) {
 	rt := r.T
 	guardRun = r
+	drawSrcBase(r.T)
 	maxAvg := int64(rapid.SampledFrom([]int{2, 5, 20, 200}).Draw(rt, "avg-scale"))
 	// C13 is stated for every configuration: by draw bursts go far beyond the "burst <= 5 x average" domain of C03
 	rates := drawRates(rt, rapid.IntRange(0, 3).Draw(rt, "wide-bursts") != 0, maxAvg)
